@@ -7,12 +7,19 @@ Engine A (bounded-exhaustive inputs, independent oracle in ``vf.c20_model``):
 * ``fuse``    every ordered pair of small streams with every id assignment, every acyclic
               dependency relation and one body per statement class:
               ``fuse_statement_streams_with_unique_ids`` and ``disambiguate_and_fuse``.
+* ``fuse-containers`` every ordered pair of streams of length <= 2 (every id assignment and
+              dependency relation, one class layout) with the two streams handed over as list /
+              tuple / one-shot generator in every combination (fuse), as list / tuple
+              (disambiguate_identifiers, disambiguate_and_fuse).
 * ``disamb``  every ordered pair of statement bodies with every placement of the identifiers in
               written name / lhs index / rhs / condition (plus two-statement streams), three
               filters: ``disambiguate_identifiers`` and ``disambiguate_and_fuse``.  A further
               block carries "typed twins" (x + 1, x + 1.0, x + True, x*2, x*2.0, and the
               hash-colliding x + -1, x + -2) in every pair of positions of stream b: the
               renamed stream is compared type-strictly, so nothing but names may change.
+              Another block puts attribute look-ups (q.r, q[p].r) whose attribute NAME ranges
+              over the identifier names into rhs, lhs index and condition: attributes are not
+              identifiers and must survive.
               Another block varies how the caller's filter expresses yes / no (bool, match
               object / None, count, numpy bool, name / empty string): only truthiness counts.
 * ``dot``     every labelled DAG on <= 4 (quick) / 5 (thorough) statements: the edges drawn by
@@ -25,7 +32,8 @@ Engine A (bounded-exhaustive inputs, independent oracle in ``vf.c20_model``):
 
 Engine B (explicit-state BFS over histories of repeated fusion, family ``bfs``): state = a stream,
 initially empty; menu = fuse(state, P_j), disambiguate_and_fuse(state, P_j), fuse(P_j, state) for
-a pool of six streams; every transition is executed on the real code and checked by the same
+a pool of six streams (handed over as list + generator, tuple + list, tuple + generator); every
+transition is executed on the real code and checked by the same
 oracle; every expanded state must be a well-formed program whose dot export is the transitive
 reduction.  A violating transition is reported and not expanded.
 """
@@ -48,6 +56,13 @@ FUSE_IDS = {"quick": ("s0", "s1", "s0_0"), "thorough": ("s0", "s1", "s2", "s0_0"
 FUSE_IDS_LONG = ("s0", "s1", "s0_0")          # id pool of the streams of length 3
 FUSE_MAX_LEN_FREE_BODIES = 2      # streams up to this length carry every body combination
 FUSE_MAX_LEN = {"quick": 2, "thorough": 3}    # longer ones (thorough) carry one body layout
+
+# how the two streams are handed over: fuse walks each stream once, so every combination of
+# list / tuple / one-shot generator; the disambiguating entry points walk them repeatedly, so
+# every combination of list / tuple
+FUSE_CONTAINERS = tuple(x + y for x in M.CONTAINER_KINDS for y in M.CONTAINER_KINDS
+                        if x + y != "ll")
+DISAMB_CONTAINERS = ("lt", "tl", "tt")
 
 # -- disamb family
 DISAMB_NAMES = {"quick": ("x", "x_0"), "thorough": ("x", "y", "x_0")}
@@ -160,6 +175,21 @@ def dags(n):
             yield tuple(tuple(j for j in range(n) if adj[i] >> j & 1) for i in range(n))
 
 
+def container_streams(tier):
+    """Streams of length <= 2 with every id assignment and dependency relation, one class
+    layout: the inputs of the container-kind block."""
+    ids = FUSE_IDS[tier]
+    out = [()]
+    for n in (1, 2):
+        for idsel in itertools.permutations(ids, n):
+            for dag in dags(n):
+                out.append(tuple(
+                    (FUSE_BODIES[i][0], idsel[i], *FUSE_BODIES[i][1:],
+                     tuple(sorted(idsel[j] for j in dag[i])))
+                    for i in range(n)))
+    return out
+
+
 def fuse_streams(tier):
     ids = FUSE_IDS[tier]
     out = [()]
@@ -197,6 +227,12 @@ def bodies_over(names, templates):
                     out.append(("A", Sub(p, q), r, None))
                 if "T3" in templates:
                     out.append(("CA", p, q, Lt(r, M.ZERO)))
+                if "T5" in templates:
+                    # attribute look-ups whose ATTRIBUTE name is one of the identifier names:
+                    # an attribute is not an identifier and must survive every renaming
+                    out.append(("A", p, ("Lookup", q, ("str", r[1][1])), None))
+                    out.append(("CA", Sub(p, ("Lookup", q, ("str", r[1][1]))), M.ZERO,
+                                Lt(("Lookup", Sub(q, p), ("str", r[1][1])), M.ZERO)))
                 if "T4" in templates:
                     for s in V:
                         out.append(("CA", Sub(p, q), Sum(r, ("int", 1)), Lt(s, M.ZERO)))
@@ -249,7 +285,9 @@ def disamb_lists(tier):
     small = bodies_over(DISAMB2_NAMES, t2)
     single = [stream_of((b,)) for b in small]
     double = [stream_of((b, c)) for b in small for c in small]
-    return [(one, one, DISAMB_FILTERS), (single, double, DISAMB_FILTERS),
+    looks = [stream_of((b,)) for b in bodies_over(DISAMB_NAMES[tier], ("T5",))]
+    return [(one, one, DISAMB_FILTERS), (one, looks, DISAMB_FILTERS),
+            (looks, one, DISAMB_FILTERS), (single, double, DISAMB_FILTERS),
             (double, single, DISAMB_FILTERS), (*twin_lists(), DISAMB_FILTERS),
             (single, single, DISAMB_STYLE_FILTERS)]
 
@@ -263,27 +301,33 @@ def disamb_lists(tier):
 # P2: generated-looking names s0_0 / x_0, dependency on a later id; hash-colliding twins
 #     x + -1 / x + -2.
 # P3: a lone no-op.
-# P4: conditional subscript assignment, ids out of order.
+# P4: conditional subscript assignment, ids out of order; attribute lookup x.y whose attribute
+#     name is also an identifier.
 # P5: z only in an lhs index.
 POOL = (
     (A("s0", X, Sum(Y, ("int", 1))), A("s1", Sub(Z, X), Sum(Y, ("float", 1.0)), ["s0"])),
     (CA("s0", Y, X, Lt(Z, M.ZERO)), N("s1", ["s0"]), A("s2", X, Y, ["s0", "s1"])),
     (A("s0_0", X0, Sum(X, ("int", -1))), A("s0", Y, Prod(Sum(X, ("int", -2)), X0), ["s0_0"])),
     (N("s1"),),
-    (CA("s2", Sub(Z, Y), X, Lt(Y, Z)), A("s0", X, ("int", 1), ["s2"])),
+    (CA("s2", Sub(Z, Y), ("Lookup", X, ("str", "y")), Lt(Y, Z)), A("s0", X, ("int", 1), ["s2"])),
     (A("s1", Sub(Y, Z), M.ZERO),),
 )
 OPS = ("fuse", "daf", "rfuse")
 MENU = tuple((op, j) for j in range(len(POOL)) for op in OPS)
 
 
+# how each menu operation hands its two streams over (l = list, t = tuple, g = one-shot generator;
+# disambiguation walks its streams more than once, so it only gets sequences)
+BFS_CONTAINERS = {"fuse": "lg", "daf": "tl", "rfuse": "tg"}
+
+
 def op_case(state, op):
     kind, j = op
     if kind == "fuse":
-        return ("fuse", state, POOL[j], "all")
+        return ("fuse/" + BFS_CONTAINERS[kind], state, POOL[j], "all")
     if kind == "daf":
-        return ("daf", state, POOL[j], "all")
-    return ("fuse", POOL[j], state, "all")
+        return ("daf/" + BFS_CONTAINERS[kind], state, POOL[j], "all")
+    return ("fuse/" + BFS_CONTAINERS[kind], POOL[j], state, "all")
 
 
 def show_history(hist):
@@ -302,9 +346,11 @@ def apply_op(state, op):
     )
     case = op_case(state, op)
     cop, a, b, filt = case
+    base, kinds = M.split_op(cop)
     try:
-        ra, rb = M.build_stream(a), M.build_stream(b)
-        if cop == "fuse":
+        ra = M.wrap_stream(M.build_stream(a), kinds[0])
+        rb = M.wrap_stream(M.build_stream(b), kinds[1])
+        if base == "fuse":
             out, idmap = fuse_statement_streams_with_unique_ids(ra, rb)
             subst = None
         else:
@@ -315,8 +361,9 @@ def apply_op(state, op):
     except RecursionError:
         raise
     except Exception as e:  # noqa: BLE001
-        return None, None, [(f"raises:{cop}:{type(e).__name__}", f"{type(e).__name__}: {e}"[:300])]
-    fails = M.check_transform(a, b, spec, dict(idmap), None if cop == "fuse" else filt, subst)
+        return None, None, [(f"raises:{base}:{type(e).__name__}",
+                             f"{type(e).__name__}: {e}"[:300])]
+    fails = M.check_transform(a, b, spec, dict(idmap), None if base == "fuse" else filt, subst)
     return spec, canon, fails
 
 
@@ -368,7 +415,9 @@ class C20(Check):
         "the depth bound or at a violation). Engine A: bounded-exhaustive inputs -- every "
         "statement of the rw grid; every ordered pair of streams of length <= 2 (thorough: 3) "
         "with every injective id assignment from a 3 (4) element pool, every acyclic dependency "
-        "relation and every class layout; every ordered pair of statement bodies over every "
+        "relation and every class layout; the same for one class layout with the two streams "
+        "handed over as list / tuple / one-shot generator in all 9 combinations (fuse) resp. "
+        "list / tuple (disambiguation); every ordered pair of statement bodies over every "
         "placement of 2 (3) identifiers in written name / lhs index / rhs / condition, with "
         "filters all / none / {x}, plus all two-statement streams over a reduced body set, plus "
         "every pair of positions (rhs / lhs index / condition, same or different statement) "
@@ -379,7 +428,9 @@ class C20(Check):
         "chains with <= 1) in every listing order of the statements, each with ids picked by "
         "their hash so that all dependency sets iterate in chain order and in reverse chain "
         "order (run under the first hash seed only), and with every set of "
-        "shortcut edges in natural and reversed order. Filters of the disamb family additionally "
+        "shortcut edges in natural and reversed order. Attribute look-ups q.r and q[p].r with r "
+        "ranging over the identifier names occur in rhs, lhs index and condition of a further "
+        "block of bodies. Filters of the disamb family additionally "
         "answer in 4 non-bool styles (match object / None, count, numpy bool, name / empty "
         "string) x {all, none, {x}} over the reduced single-statement bodies. distinct_nontrivial counts "
         "distinct cases: statements whose reference read set is non-empty (rw), stream pairs "
@@ -404,6 +455,11 @@ class C20(Check):
         "PYTHONHASHSEED values listed in hash_seeds are the only set-iteration orders explored",
         "CPython small-set layout: ids with distinct hash & 31 < 8 iterate in that order "
         "(asserted at run time on every pair before use)",
+        "a stream may be any iterable for fuse_statement_streams_with_unique_ids (the unchanged "
+        "function walks each stream exactly once); disambiguate_identifiers and "
+        "disambiguate_and_fuse walk their streams several times, so only re-iterable sequences "
+        "(list, tuple) are demanded there",
+        "attribute names of look-ups are not identifiers of a stream",
         "a caller's should_disambiguate_name answer is interpreted by truthiness (as the "
         "unchanged code does and as re.match / dict.get style predicates require)",
     ]
@@ -418,6 +474,12 @@ class C20(Check):
         key = ("fuse", tier)
         if key not in self._cache:
             self._cache[key] = fuse_streams(tier)
+        return self._cache[key]
+
+    def _container_streams(self, tier):
+        key = ("containers", tier)
+        if key not in self._cache:
+            self._cache[key] = container_streams(tier)
         return self._cache[key]
 
     def _disamb_lists(self, tier):
@@ -460,6 +522,8 @@ class C20(Check):
         return [
             ("bfs", lambda: bfs_items(tier)),
             ("fuse", lambda: (("row", i) for i in range(len(self._fuse_streams(tier))))),
+            ("fuse-containers", lambda: (("crow", i)
+                                         for i in range(len(self._container_streams(tier))))),
             ("disamb", lambda: (("drow", blk, i)
                                 for blk, (la, _, _) in enumerate(self._disamb_lists(tier))
                                 for i in range(len(la)))),
@@ -491,6 +555,17 @@ class C20(Check):
                 self.do_case(r, ("fuse", a, b, "all"), key=("f", item[1], ib))
                 self.do_case(r, ("daf", a, b, "all"), key=("fd", item[1], ib))
             r.sample = ("case", "fuse", a, streams[(item[1] * 7 + 3) % len(streams)], "all")
+        elif tag == "crow":
+            streams = self._container_streams(tier)
+            a = streams[item[1]]
+            for ib, b in enumerate(streams):
+                for kinds in FUSE_CONTAINERS:
+                    self.do_case(r, ("fuse/" + kinds, a, b, "all"), key=("c", item[1], ib, kinds))
+                for kinds in DISAMB_CONTAINERS:
+                    self.do_case(r, ("daf/" + kinds, a, b, "all"), key=("cd", item[1], ib, kinds))
+                    self.do_case(r, ("disamb/" + kinds, a, b, "all"),
+                                 key=("cs", item[1], ib, kinds))
+            r.sample = ("case", "fuse/tg", a, streams[(item[1] * 5 + 2) % len(streams)], "all")
         elif tag == "drow":
             la, lb, filters = self._disamb_lists(tier)[item[1]]
             a = la[item[2]]
@@ -551,7 +626,7 @@ class C20(Check):
         op, a, b, filt = case
         r.evals += 1
         fails = M.case_fails(case)
-        if op == "fuse":
+        if M.split_op(op)[0] == "fuse":
             if {s[1] for s in a} & {s[1] for s in b}:
                 r.keys.append(key or ("fuse", a, b))
         else:
